@@ -113,6 +113,9 @@ pub const VALUES: &[&str] = &[
     "zzfmtbig",
     "zzfmtzero",
     "zztagtag",
+    "zzmixed",
+    "zzmixedreal",
+    "zzwide",
 ];
 
 /// prelude evaluated on every party: the values that have no literal
@@ -127,6 +130,11 @@ const PRELUDE: &[&str] = &[
     "255 ^{ 18446744073709551615 \"#fmt\" ^} var zzfmtbig",
     "\"10\" ^{ 0 \"#fmt\" ^} var zzfmtzero",
     "7 ^{ 1 \"a\" ^} ^{ 2 \"b\" ^} var zztagtag",
+    // more than twenty elements of types that do not compare with each other
+    "[ 10 9 \"s1\" \"s10\" 2 0 0 7 0 2 11 0 11 8 7 \"s11\" 1 5 5 9 2 4 11 ] var zzmixed",
+    "[ 1.0 zznan 2.0 0.5 zznan -1.0 3.0 zznan 0.0 -0.0 7.5 zznan 2.5 9.0 zznan 4.0 1.0e999 zznan -1.0e999 6.0 zznan 8.0 0.25 zznan 5.0 ] var zzmixedreal",
+    // twenty bytes of input: reads of up to 128 bits at any bit offset stay inside it
+    "[ 1 2 3 4 5 6 7 8 9 10 11 12 13 14 15 16 17 18 19 20 ] >bitstr var zzwide",
 ];
 
 /// words whose argument is an allocation size: exercised only with modest sizes (the property's proviso)
@@ -167,6 +175,9 @@ const TRAILING: &[(&str, &str)] = &[
     ("include", "\"missing.xeh\""),
     ("include", "\"err.xeh\""),
     ("include", "\"nonutf8.xeh\""),
+    ("include", "\"self.xeh\""),
+    ("include", "\"ping.xeh\""),
+    ("require", "\"self.xeh\""),
     ("require", "\"ok.xeh\""),
     ("<name>", "zzn"),
     ("enum", "zzE : zzA : zzB endenum"),
@@ -191,6 +202,9 @@ fn make_env(case: &Case) -> verif_env::Env {
     env.files.insert("ok.xeh".into(), Ok(b": zzinc 42 ; zzinc".to_vec()));
     env.files.insert("bad.xeh".into(), Ok(b"1 2 + zzunknown 3".to_vec()));
     env.files.insert("loop.xeh".into(), Ok(b"begin 1 repeat".to_vec()));
+    env.files.insert("self.xeh".into(), Ok(b"1 drop include \"self.xeh\"".to_vec()));
+    env.files.insert("ping.xeh".into(), Ok(b"include \"pong.xeh\"".to_vec()));
+    env.files.insert("pong.xeh".into(), Ok(b": zzpong 1 ; include \"ping.xeh\"".to_vec()));
     env.files.insert("bin.dat".into(), Ok(vec![0, 1, 2, 255, 254, 0x41]));
     env.files.insert("nonutf8.xeh".into(), Ok(vec![0x31, 0x20, 0xff, 0xfe, 0x20, 0x32]));
     env.files.insert("err.xeh".into(), Err("simulated: input/output error".into()));
@@ -541,6 +555,23 @@ fn gen_source(rng: &mut Rng, words: &[String]) -> String {
         ]))
         .to_string();
     }
+    if rng.chance(1, 60) {
+        // a long vector of values that do not all compare with each other, sorted
+        let n = 21 + rng.below(30);
+        let mut toks: Vec<String> = vec!["[".into()];
+        for _ in 0..n {
+            toks.push(match rng.below(10) {
+                0..=4 => format!("{}", rng.below(13)),
+                5..=6 => format!("\"s{}\"", rng.below(13)),
+                7 => (*rng.pick(&["1.5", "0.0", "-0.0", "zznan", "2.5"])).to_string(),
+                8 => (*rng.pick(&["nil", "true", "|ff|", "[ 1 ]"])).to_string(),
+                _ => format!("{}", rng.below(3)),
+            });
+        }
+        toks.push("]".into());
+        toks.push((*rng.pick(&["sort", "sort", "sort drop", "dup sort equal?", "sort reverse sort"])).to_string());
+        return toks.join(" ");
+    }
     match rng.below(10) {
         0..=4 => sweep_source(rng, words),
         5..=7 => soup_source(rng, words),
@@ -560,6 +591,12 @@ fn gen_source(rng: &mut Rng, words: &[String]) -> String {
             ": zzr zzr ; zzr",
             "\"ab\" begin dup 2 collect concat dup length 4000 > until",
             "1000 0 do I loop",
+            "zzwide open-bitstr big 3 bits drop 126 uint",
+            "zzwide open-bitstr big 1 bits drop 128 int",
+            "zzwide open-bitstr little 7 bits drop 125 uint",
+            "zzwide open-bitstr 5 bits drop 123 int 64 float",
+            "zzmixed sort",
+            "zzmixedreal sort",
 
             "include \"loop.xeh\"",
             "\"bin.dat\" read-all",
